@@ -620,11 +620,16 @@ package kafka
 //@   cancellable ctx.Done()
 // the same for the other waits of a Transport round trip (pool not ready yet, connection being dialled, response pending)
 // and for a synchronous CommitMessages waiting for the commit loop
+//@ property C09 C12
+// The periodic metadata refresh runs for as long as the pool lives: the only context whose end (ctx.Err()) is consulted to
+// leave the loop is the pool's own, never the deadline of one metadata request (a slow answer must not stop the refresh).
 //@ func (*connPool).discover
 //@   option noframe
 //@   option only callsite callsite-reach
 //@   modifies heap
 //@   callsite send requires cap($1.res) >= 1
+//@   callsite iface Context.Err requires $0 == ctx
+//@ property C09
 //@ func (*connPool).roundTrip
 //@   option noframe
 //@   option only cancellable
